@@ -78,7 +78,7 @@ def policy_json(spec, reg_before=None, I=None):
     return out
 
 
-def pipeline_events(roots, envspec, policy, I=None, reoptimize=True):
+def pipeline_events(roots, envspec, policy, I=None, reoptimize=True, compose=False):
     """roots: list of (name, samples).  Runs generate / process_meta_data / merge_models on the real code.
 
     Returns the event list of one pipeline (Begin, Root*, Register*, MergeModels, Reoptimize) + the registry."""
@@ -128,6 +128,34 @@ def pipeline_events(roots, envspec, policy, I=None, reoptimize=True):
         except Exception as e:
             ro["exc"] = DI.exc_name(e)
         evs.append(ro)
+    if not mm["exc"] and compose:
+        # the layout stage on this very registry (after generate_names, as the pipeline does)
+        from json_to_models.models.structure import compose_models, compose_models_flat
+        ce = {"ev": "Compose", "exc": "", "graph": None, "nested": {"roots": [], "children": {}, "inj": []}, "flat": []}
+        try:
+            reg.generate_names()
+            ce["graph"] = project_graph(reg, I)
+            ce["nested"]["children"] = {m["ix"]: [] for m in ce["graph"]["models"]}
+            roots, inj = compose_models(reg.models_map)
+            seen = set()
+
+            def walk(struct):
+                if id(struct) in seen:
+                    return
+                seen.add(id(struct))
+                ce["nested"]["children"][ixnum(struct["model"].index)] = [ixnum(c["model"].index) for c in struct["nested"]]
+                for c in struct["nested"]:
+                    walk(c)
+            ce["nested"]["roots"] = [ixnum(s_["model"].index) for s_ in roots]
+            for s_ in roots:
+                walk(s_)
+            flat, _ = compose_models_flat(reg.models_map)
+            ce["flat"] = [ixnum(s_["model"].index) for s_ in flat]
+        except Exception as e:
+            ce["exc"] = DI.exc_name(e)
+            if ce["graph"] is None:
+                ce["graph"] = project_graph(reg, I)
+        evs.append(ce)
     env = make_env(I, sreg, dkf=envspec.get("dkf", ()), dkr=envspec.get("dkr", ()), anchored=envspec.get("anchored", False))
     mm["env"] = env
     return evs, reg, gen
@@ -190,7 +218,7 @@ def registry_traces(pid, chk, cases):
             for m in mms:
                 m["env"] = mms[-1]["env"]
         else:
-            evs, _, _ = pipeline_events(roots, envspec, policy, I)
+            evs, _, _ = pipeline_events(roots, envspec, policy, I, compose=(pid == "C12"))
         traces.append({"id": tid, "events": evs})
         inputs[tid] = {"roots": roots, "env": envspec, "policy": policy}
     return traces, inputs
